@@ -7,7 +7,7 @@ from .. import core, fe, world
 from .. import prop as P
 from ..prop import V, hx, unhx
 
-OPS = ["create", "create_bad", "create_again", "create_stored", "create_other", "server_wipe", "gen_key", "encrypt", "upload_config", "upload_index", "search"]
+OPS = ["create", "create_bad", "create_again", "create_stored", "create_other", "server_wipe", "encrypt_empty", "gen_key", "encrypt", "upload_config", "upload_index", "search"]
 LEGAL = ["create", "gen_key", "encrypt", "upload_config", "upload_index", "search", "search"]
 BAD_CFG = ["unknown_scheme", "missing_param", "aes_key_20", "no_scheme"]
 
@@ -132,6 +132,7 @@ class C11(P.Property):
         srv = 0  # the server's state for this service
         has_edb = False  # the client still holds its local copy of the index
         keybytes = None
+        empty_index = False  # the index was built from a database without postings: every search answers empty
 
         for si, st in enumerate(plan["steps"]):
             op = st["op"]
@@ -208,6 +209,17 @@ class C11(P.Property):
             elif op == "gen_key":
                 r = await host.gen_key(cur)
                 exp = F["cc"] and not F["kc"]
+            elif op == "encrypt_empty":
+                # a database without postings ({} or one keyword with an empty list): whether the scheme takes it is the scheme's
+                # business -- but it is either encrypted (the step is done) or refused (nothing changes)
+                r = await host.encrypt(cur, {} if st.get("gap", 0) == 0 else {b"kw": []})
+                exp = F["cc"] and F["kc"] and not F["de"]
+                if exp and r[0] == "exc":
+                    exp = False
+                    probes["scheme_refused_input"] = 1
+                if r[0] == "ok":
+                    empty_index = True
+                op = "encrypt"
             elif op == "encrypt":
                 r = await host.encrypt(cur, copy.deepcopy(db))
                 exp = F["cc"] and F["kc"] and not F["de"]
@@ -312,7 +324,7 @@ class C11(P.Property):
                         viol.append(V("C11.search", "WRONG_RESULT", f"step {si}: search returned but the callback received nothing", site=op))
                         return
                     got = fe.result_list(s.sse_module_loader, s.config_object, box[0])
-                    want = db.get(search_w, [])
+                    want = [] if empty_index else db.get(search_w, [])
                     same = (set(got) == set(want) and len(got) == len(want)) if isinstance(got, (set, frozenset)) else list(got) == want
                     if not same:
                         viol.append(V("C11.search", "WRONG_RESULT", f"step {si}: search({search_w!r}) delivered {len(got)} ids, expected {len(want)}", site=op))
@@ -350,7 +362,7 @@ class C11(P.Property):
                     return
                 box, s = r[1]
                 got = fe.result_list(s.sse_module_loader, s.config_object, box[0])
-                want = db.get(w, [])
+                want = [] if empty_index else db.get(w, [])
                 same = (set(got) == set(want) and len(got) == len(want)) if isinstance(got, (set, frozenset)) else list(got) == want
                 if not same:
                     viol.append(V("C11.search", "WRONG_RESULT", f"final search({w!r}) delivered {len(got)} ids, expected {len(want)}", site="search"))
